@@ -466,20 +466,33 @@ theorem C05_steps_readTokenSeparator (s : IS) :
 
 /-! ## the instance loop of pass 1 (`STEPfile::ReadData1`): termination, linear steps, cut-off, resynchronisation
 
-`_partial`: exchange files without `&SCOPE` (the `CreateScopeInstances` branch is not modelled) and without the
-working-session state letters; the reader of an external mapping's parts (`CreateSubSuperInstance`) is any function that
+`_partial`: files without `&SCOPE` (the `CreateScopeInstances` branch is not modelled); the reader of an external mapping's parts (`CreateSubSuperInstance`) is any function that
 never un-reads (`hsub`); what the dictionary and the instance manager answer is an arbitrary oracle. -/
 
-/-- For every byte string, oracle and part reader: `ReadData1` ends (fuel `|bytes| + 2`), never un-reads, makes at most
-`96·(|bytes| + 1) + readCommentIters + 20` steps over all nesting levels (instance loop, resynchronisation loop,
+/-- For every byte string, oracle, part reader, and for exchange as well as working-session files (state letters
+`C I N D`, deleted instances skipped): `ReadData1` ends (fuel `|bytes| + 2`), never un-reads, makes at most
+`51·(|bytes| + 1) + readCommentIters + 20` steps over all nesting levels (instance loop, resynchronisation loop,
 `CreateInstance` skeleton, token separators, comments, `SkipInstance`, `FindStartOfInstance`, string literals), never
 counts more than `_maxErrorCount + 1` instances it could not create, and aborts exactly when it has counted that many. -/
-theorem C05_readData1_partial (o : Oracle) (sub : IS → IS) (hsub : ∀ s, (sub s).m ≤ s.m) (s : IS) :
-    ∃ r, readData1 o sub C05.skipInstanceSkipsComments C05.readCommentIters C05.maxErrorCount (s.rest.length + 2) s = .ok r ∧
+theorem C05_readData1_partial (o : Oracle) (sub : IS → IS) (hsub : ∀ s, (sub s).m ≤ s.m) (wsMode : Bool) (s : IS) :
+    ∃ r, readData1 o sub C05.skipInstanceSkipsComments wsMode C05.readCommentIters C05.maxErrorCount (s.rest.length + 2) s = .ok r ∧
       r.s.m ≤ s.m ∧
-      r.steps ≤ 96 * (s.rest.length + 1) + C05.readCommentIters + 20 ∧
+      r.steps ≤ 51 * (s.rest.length + 1) + C05.readCommentIters + 20 ∧
       r.notCreated ≤ C05.maxErrorCount + 1 ∧ (r.aborted = true ↔ r.notCreated = C05.maxErrorCount + 1) :=
-  readData1_ok o sub hsub _ _ _ s
+  readData1_ok o sub hsub _ wsMode _ _ s
+
+/-- Pass 2 (`ReadData2`) is the same loop around `ReadInstance`.  For **every** per-instance reader `ri` that is a stage
+— it returns, never un-reads, and its steps are paid by what it consumes up to a constant `K` (the attribute readers
+behind `ReadInstance` are C01/C09's models; here they are this hypothesis) — pass 2 ends with fuel `|bytes| + 2`, makes at
+most `(39 + K)·(|bytes| + 1) + readCommentIters + K + 8` steps, never counts more than `_maxErrorCount + 1` invalid
+instances (`_entsInvalid`) and aborts exactly when it has. -/
+theorem C05_readData2_partial (ri : IS → Out LoopRes) (K : Nat) (hK : 1 ≤ K) (wsMode : Bool) (s : IS)
+    (hri : StageOk C05.readCommentIters ri K (s.rest.length + 1)) :
+    ∃ r, readData2 ri C05.skipInstanceSkipsComments wsMode C05.readCommentIters C05.maxErrorCount (s.rest.length + 2) s = .ok r ∧
+      r.s.m ≤ s.m ∧
+      r.steps ≤ (39 + K) * (s.rest.length + 1) + C05.readCommentIters + K + 8 ∧
+      r.notCreated ≤ C05.maxErrorCount + 1 ∧ (r.aborted = true ↔ r.notCreated = C05.maxErrorCount + 1) :=
+  readData2_ok ri K hK _ wsMode _ _ s hri
 
 /-- resynchronisation: whenever `FindStartOfInstance` reports success, the stream is good and its next byte is `#` -/
 theorem C05_findStartOfInstance_resync (fuel : Nat) (s : IS) (r : LoopRes)
